@@ -15,14 +15,17 @@ class Stuck(Exception):
 
 
 class Script:
+    SEEN_STUCK = False
     """Sequence of {"e": call|ret|fail, "f": name, "kwargs": [[p, value]]} items consumed in order."""
 
-    def __init__(self, items: list[dict], timeout: float = 240.0) -> None:
+    def __init__(self, items: list[dict], timeout: float | None = None) -> None:
         self.items = [(it["e"], it["f"], json.dumps(dict((p, v) for p, v in it["kwargs"]), sort_keys=True))
                       for it in items if it["e"] in ("call", "ret", "fail")]
         self.pos = 0
         self.cv = threading.Condition()
-        self.timeout = timeout
+        # generous while nothing is wrong (a loaded machine must never produce a false 'stuck'); once one script of this
+        # process could not be followed the verdict is already a violation and the rest may fail fast
+        self.timeout = timeout if timeout is not None else (15.0 if Script.SEEN_STUCK else 120.0)
         self.stuck: str | None = None
         self.unexpected: list[tuple] = []
         self.late = 0
@@ -46,6 +49,7 @@ class Script:
                 if self.stuck is None:
                     nxt = self.items[self.pos] if self.pos < len(self.items) else None
                     self.stuck = f"waiting for {me}, script position {self.pos} expects {nxt}"
+                    Script.SEEN_STUCK = True
                     self.cv.notify_all()
                 logfn()          # let the run proceed (unscheduled) so that nothing hangs; the outcome is 'stuck'
                 return
